@@ -165,7 +165,7 @@ func (w *svWorld) step() {
 		kind := "Swap(" + w.present(i) + "," + w.present(j) + ")"
 		w.m[i], w.m[j] = w.m[j], w.m[i]
 		w.mutated(kind)
-	case 6: // Permute: sequential transpositions (i, pi[i]) for pi[i] > i
+	case 6: // Permute: afterwards position i holds the element that was at pi[i]
 		pi := randPerm(t, n)
 		c.Logf("v.Permute(%v)", pi)
 		var err error
@@ -173,10 +173,9 @@ func (w *svWorld) step() {
 		if err != nil {
 			w.fail("result", "Permute|error-on-valid-permutation", "Permute(%v) returned %v", pi, err)
 		}
+		old := append([]float64(nil), w.m...)
 		for i := 0; i < n; i++ {
-			if pi[i] > i {
-				w.m[i], w.m[pi[i]] = w.m[pi[i]], w.m[i]
-			}
+			w.m[i] = old[pi[i]]
 		}
 		w.rebuilt()
 		w.mutated("Permute")
